@@ -14,7 +14,7 @@ from vlib.rsitems import AnchorLost
 from units.u_art import UNIT as ART
 
 S = "crates/compiler/src/pipeline/separate.rs"
-art_types = [it for it in ART.items if isinstance(it, (Adt, Raw))]
+art_types = [it for it in ART.items if isinstance(it, (Adt, Raw)) and getattr(it, "path", None) != "contracts/art.lemmas.rs"]
 compute_hash = copy.copy([it for it in ART.items if isinstance(it, Fn) and it.name == "compute_hash"][0])
 compute_hash.contract_only = True
 CUT = "let mut genv = GlobalTypeEnv::new();"
